@@ -49,7 +49,10 @@ M2Default == [st |-> "ok", err |-> "none", salt |-> "ok", pk |-> "ok", cut |-> 0
 M2Base  == { [M2Default EXCEPT !.st = h[1], !.err = h[2], !.salt = s, !.pk = p] : h \in Heads, s \in FieldCh, p \in FieldCh }
 M2Space == M2Base \cup { [M2Default EXCEPT !.cut = c] : c \in 1..6 }
 
-ProofCh == {"absent", "right", "otherCode", "corrupt"}
+\* suffixN: only the last N bytes of the right proof (front truncation); empty: a Proof item of length 0;
+\* padded: the right proof with a zero byte in front - the same number, written with one more byte: the one
+\* variant that is not the exact proof for which the specification leaves the verdict open
+ProofCh == {"absent", "right", "otherCode", "corrupt", "suffix1", "suffix8", "suffix32", "suffix63", "empty", "padded"}
 M4Default == [st |-> "ok", err |-> "none", proof |-> "right", mfi |-> FALSE, cut |-> 0]
 M4Space == { [M4Default EXCEPT !.st = h[1], !.err = h[2], !.proof = p, !.mfi = f] : h \in Heads, p \in ProofCh, f \in BOOLEAN }
            \cup { [M4Default EXCEPT !.cut = c] : c \in 1..4 }
@@ -104,7 +107,14 @@ Canon2(r) == Hdr(r, "M2")
              \o (IF r.salt # "absent" THEN <<Item("salt", FieldTerm(r.salt, Salt("s")))>> ELSE << >>)
 Wire2(r) == CutTo(r, Canon2(r))
 
-ProofTerm(r) == CASE r.proof = "right" -> ProofA(KHonest) [] r.proof = "otherCode" -> ProofA(KOther) [] OTHER -> Corrupt(ProofA(KHonest))
+Padded(t)   == <<"padded", t>>
+Suffix(t, n) == <<"suffix", t, n>>
+ProofTerm(r) == CASE r.proof = "right" -> ProofA(KHonest) [] r.proof = "otherCode" -> ProofA(KOther)
+                  [] r.proof = "padded" -> Padded(ProofA(KHonest))
+                  [] r.proof = "empty" -> <<"emptyvalue">>
+                  [] r.proof = "suffix1" -> Suffix(ProofA(KHonest), 1) [] r.proof = "suffix8" -> Suffix(ProofA(KHonest), 8)
+                  [] r.proof = "suffix32" -> Suffix(ProofA(KHonest), 32) [] r.proof = "suffix63" -> Suffix(ProofA(KHonest), 63)
+                  [] OTHER -> Corrupt(ProofA(KHonest))
 Canon4(r) == Hdr(r, "M4")
              \o (IF r.proof # "absent" THEN <<Item("proof", ProofTerm(r))>> ELSE << >>)
              \o (IF r.mfi THEN <<Item("enc", Blob("mfi"))>> ELSE << >>)
@@ -164,6 +174,7 @@ R4(r, k) == LET dd == Dict(Wire4(r)) IN
          ELSE IF ~ChkState(dd, "M4") THEN <<"fail", "state4">>
          ELSE IF ~ChkError(dd) THEN <<"fail", "error4">>
          ELSE IF ~Has(dd, "proof") THEN <<"fail", "present4">>
+         ELSE IF dd["proof"] = Padded(ProofA(k)) THEN <<"either">>
          ELSE IF dd["proof"] # ProofA(k) THEN <<"fail", "proof">>
          ELSE <<"pass">>
 R6(r, k) == LET dd == Dict(Wire6(r))
@@ -180,6 +191,9 @@ R6(r, k) == LET dd == Dict(Wire6(r))
 Verdict(m2, m4, m6) ==
     LET k == Kc(Dict(Wire2(m2))) IN
     IF R2(m2)[1] = "fail" THEN [v |-> "fail", stage |-> R2(m2)[2], m3 |-> FALSE, m5 |-> FALSE]
+    \* value-equal re-encoding of the right proof: accepting and rejecting are both allowed (m5 = "may be sent")
+    ELSE IF R4(m4, k)[1] = "either" THEN [v |-> IF R6(m6, k)[1] = "fail" THEN "fail" ELSE "either",
+                                          stage |-> "proof-encoding", m3 |-> TRUE, m5 |-> TRUE]
     ELSE IF R4(m4, k)[1] = "fail" THEN [v |-> "fail", stage |-> R4(m4, k)[2], m3 |-> TRUE, m5 |-> FALSE]
     ELSE IF R6(m6, k)[1] = "fail" THEN [v |-> "fail", stage |-> R6(m6, k)[2], m3 |-> TRUE, m5 |-> TRUE]
     ELSE [v |-> "ok", stage |-> "done", m3 |-> TRUE, m5 |-> TRUE]
@@ -214,7 +228,10 @@ ReceiveM4     == pc = "M3sent" /\ Receive(m4, Wire4(m4), "state4", "parse4")
 CheckM4State  == pc = "state4" /\ IF ChkState(d, "M4") THEN Goto("error4") ELSE Fail("state4")
 CheckM4Error  == pc = "error4" /\ IF ChkError(d) THEN Goto("present4") ELSE Fail("error4")
 CheckM4Fields == pc = "present4" /\ IF Has(d, "proof") THEN Goto("proof") ELSE Fail("present4")
-CheckProof    == pc = "proof" /\ IF d["proof"] = ProofA(kc) THEN Goto("sendM5") ELSE Fail("proof")
+CheckProof    == pc = "proof" /\ d["proof"] # Padded(ProofA(kc)) /\ IF d["proof"] = ProofA(kc) THEN Goto("sendM5") ELSE Fail("proof")
+\* the right proof written with a leading zero byte: the specification allows either outcome
+CheckProofPadded(accept) ==
+    pc = "proof" /\ d["proof"] = Padded(ProofA(kc)) /\ IF accept THEN Goto("sendM5") ELSE Fail("proof")
 SendM5(r6) ==
     /\ pc = "sendM5"
     /\ m5' = M5Term(kc)
@@ -253,7 +270,8 @@ CtrlNext == \/ ReceiveM2 \/ CheckM2State \/ CheckM2Error \/ CheckM2Fields
             \/ ReceiveM6 \/ CheckM6State \/ CheckM6Error \/ CheckM6Fields \/ OpenM6 \/ CheckInner \/ CheckSig
 EnvM4 == pc = "srp" /\ \E r4 \in M4Space : SendM3(r4)
 EnvM6 == pc = "sendM5" /\ \E h \in Heads, e \in EncSpace, m \in M6Mods : Valid6(Mk6(h, e, m)) /\ SendM5(Mk6(h, e, m))
-Next == CtrlNext \/ EnvM4 \/ EnvM6
+Padded4 == \E a \in BOOLEAN : CheckProofPadded(a)
+Next == CtrlNext \/ Padded4 \/ EnvM4 \/ EnvM6
 Spec == Init /\ [][Next]_vars
 
 \* ------------------------------------------------------------------ properties
@@ -264,7 +282,7 @@ Returned == pc = "Done"
 SetupOnlyAuthenticated ==
     Returned =>
         /\ kc = KHonest
-        /\ m4.proof = "right" /\ m4.st = "ok" /\ m4.err = "none"
+        /\ m4.proof \in {"right", "padded"} /\ m4.st = "ok" /\ m4.err = "none"
         /\ LET o == Open(EncKey(KHonest), "PS-Msg06", d["enc"]) IN
            /\ o[1] = "ok"
            /\ IsLtPub(o[2].pk)
@@ -281,11 +299,13 @@ M5Accepted == (m5 # None /\ apc # "idle" /\ kc = KHonest) => apc = "accepted"
 FailureReturnsNothing == ~Returned => record = None
 NoPairingAfterError == Returned => (m2.err = "none" /\ m4.err = "none" /\ m6.err = "none" /\ m2.st = "ok" /\ m4.st = "ok" /\ m6.st = "ok")
 \* a peer that does not know the setup code never gets paired, whatever it sends
-NoCodeNoPairing == Returned => (m4.proof = "right" /\ m2.salt = "ok" /\ m2.pk = "ok")
+NoCodeNoPairing == Returned => (m4.proof \in {"right", "padded"} /\ m2.salt = "ok" /\ m2.pk = "ok")
+\* anything but the exact proof (or its zero-padded spelling) ends the exchange before M5
+OnlyExactProof == (m5 # None) => m4.proof \in {"right", "padded"}
 HonestCompletes == (pc \in {"Done", "Failed"} /\ m2 = H2 /\ m4 \in {H4, [H4 EXCEPT !.mfi = TRUE]} /\ m6 = H6) => Returned
 
 VerdictMatches ==
-    pc \in {"Done", "Failed"} =>
+    (pc \in {"Done", "Failed"} /\ Verdict(m2, m4, m6).stage # "proof-encoding") =>
         LET v == Verdict(m2, m4, m6) IN
         /\ Returned = (v.v = "ok")
         /\ pc = "Failed" => failed = v.stage
